@@ -141,6 +141,20 @@ CLAIMED["C04"] = (
     "Known finding D12: a fix exists but breaks an existing test, so it is recorded, not committed.",
     "Lean 4 proof with variant flag for a known finding + bit-exact differential correspondence", "DESIGN.md §6 C04")
 
+CLAIMED["C05"] = (
+    "Lean 4 theorems about the solver's reporting logic: a loop invariant (a de-selected row is converged by the solver's criterion, or "
+    "classified divergent, or non-finite) established at both entries to the adaptive loop and preserved by every adaptive pass whatever "
+    "the numeric oracle returns; rows are updated independently (a NaN row cannot touch its neighbours); COVERAGE: at exit every row is "
+    "converged, or in the divergent list, or in the slow-convergence list, or has a non-finite world coordinate, or was rescued by the "
+    "fallback solver, and an exception is raised (quiet off) iff a list is non-empty; and the Aitken-accelerated step is exact on "
+    "axis-aligned affine maps of either parity (convergence in one step). PARTIAL: that dn < tol^2 bounds the forward residual and that the "
+    "iteration converges for the distorted family and the NIRCam reference WCS are numerical facts - exercised on every run by forward-"
+    "mapping the returned pixels (in pixels) and by a full-grid NIRCam run, not proved. Tied to gwcs by reading the solver's internal state "
+    "(k, ind, dn, dnprev, invalid, inddiv) with a line tracer and requiring the Lean classification, invariant and raise decision to match.",
+    "Trusted: Lean kernel; standard axioms; tracer harness. Runtime behaviour not modelled: IEEE rounding, contraction of the iteration, "
+    "scipy hybr. Known finding D25 (isolated non-convergence at |Dec| >= 60).",
+    "Lean 4 invariant/coverage proof over a state-machine model + traced-state correspondence + forward-mapping oracle", "DESIGN.md §6 C05")
+
 NOT_YET = "check not built yet in this round; will be claimed once its Lean model, theorems and correspondence run green"
 
 
